@@ -159,7 +159,9 @@ def run(ctx):
     ctx.rule("C16.R5", "fixed decimal: a raise comparing the value's bit length with the size dominates every emission; write_fixed's size gate follows", floor=2)
     f = lwm.functions["prepare_fixed_decimal"]
     cfg = cfg_of(f)
+    # what produces the bytes: writes into a buffer and every return of a value
     writes = [n for n in walk_local(f.node) if isinstance(n, ast.Call) and isinstance(n.func, ast.Attribute) and n.func.attr == "write"]
+    writes += [n for n in walk_local(f.node) if isinstance(n, ast.Return) and n.value is not None and not (isinstance(n.value, ast.Constant) and n.value.value is None) and not (isinstance(n.value, ast.Name) and n.value.id == f.pos_params[0])]
     gates = []
     for t in cfg.nodes:
         if t.kind == "test" and isinstance(t.ast, ast.Compare):
